@@ -78,10 +78,49 @@ fn template(interval: f64) -> Vec<u8> {
     buf.to_vec()
 }
 
+/// Fields of a tracking report that no property mentions (source address and its family, stratum,
+/// last/RMS offset, frequency, residual frequency, skew) take pseudo-random values, a new draw per
+/// report: nothing the daemon publishes may depend on them.
+static NOISE: std::sync::atomic::AtomicU64 = std::sync::atomic::AtomicU64::new(0x9E37_79B9_7F4A_7C15);
+pub static NOISE_FAMILIES: [std::sync::atomic::AtomicU64; 4] = [std::sync::atomic::AtomicU64::new(0), std::sync::atomic::AtomicU64::new(0), std::sync::atomic::AtomicU64::new(0), std::sync::atomic::AtomicU64::new(0)];
+
+fn noise_next() -> u64 {
+    let mut z = NOISE.fetch_add(0x9E37_79B9_7F4A_7C15, std::sync::atomic::Ordering::Relaxed);
+    z = (z ^ (z >> 30)).wrapping_mul(0xBF58_476D_1CE4_E5B9);
+    z = (z ^ (z >> 27)).wrapping_mul(0x94D0_49BB_1331_11EB);
+    z ^ (z >> 31)
+}
+
+fn add_noise(b: &mut [u8]) {
+    let n = noise_next();
+    let family = (n & 3) as u16; // 0 unspecified, 1 IPv4, 2 IPv6, 3 identifier
+    NOISE_FAMILIES[family as usize].fetch_add(1, std::sync::atomic::Ordering::Relaxed);
+    if family != 0 {
+        let a = noise_next().to_be_bytes();
+        let c = noise_next().to_be_bytes();
+        b[32..40].copy_from_slice(&a);
+        b[40..48].copy_from_slice(&c);
+    }
+    b[48..50].copy_from_slice(&family.to_be_bytes());
+    b[52..54].copy_from_slice(&(1 + ((n >> 8) % 15) as u16).to_be_bytes());
+    for (k, off) in [72usize, 76, 80, 84, 88].iter().enumerate() {
+        // small, large, negative, zero: any chrony float
+        let v = noise_next();
+        let bits = match (v >> 60) & 3 {
+            0 => 0u32,
+            1 => float_bits(((v >> 8) as i64 % (1 << 20)) - (1 << 19), -10 + k as i32),
+            2 => (v >> 16) as u32,
+            _ => float_bits(1 << 23, 40),
+        };
+        b[*off..*off + 4].copy_from_slice(&bits.to_be_bytes());
+    }
+}
+
 /// Wire bytes of a Tracking reply for this report, echoing `sequence`.
 pub fn reply_bytes(r: &Report, sequence: u32) -> Vec<u8> {
     let mut b = template(0.0);
     assert_eq!(b.len(), REPLY_LEN, "unexpected tracking reply length");
+    add_noise(&mut b);
     b[16..20].copy_from_slice(&sequence.to_be_bytes());
     b[OFF_REFID..OFF_REFID + 4].copy_from_slice(&r.ref_id.to_be_bytes());
     b[OFF_LEAP..OFF_LEAP + 2].copy_from_slice(&r.leap.to_be_bytes());
